@@ -139,6 +139,7 @@ def build_bd(d):
 # ---------------------------------------------------------------------------------------------
 # reference groups of scalar ports without an explicit signal
 #   cyc = {"insts":[[name, [ports]]], "edges":[[inst, port, inst2, port2]], "tag"}   edge: inst.port = inst2.port2
+#         optional "sigs": [explicit signal names], "ncs": [[inst, port]] ports connected to an unnamed NoConn
 # ---------------------------------------------------------------------------------------------
 def build_cyc(d):
     tag = d.get("tag", "")
@@ -157,6 +158,8 @@ def build_cyc(d):
         top.add(h.Signal(name=n))
     for a, p, b, q in d["edges"]:
         top.get(a).connect(p, getattr(top.get(b), q))
+    for i, p in d.get("ncs", []):           # unnamed no-connects: the elaborator names their signals <inst>_<port>
+        top.get(i).connect(p, h.NoConn())
     return top
 
 
